@@ -350,3 +350,98 @@ package board
 //@ func (*Board).Hash view search
 //@   trusted read-only
 //@   modifies nothing
+//@
+//@ # ---- C11 (robustness): parsing arbitrary bytes never panics.  Every field parser is checked for all
+//@ # ---- byte strings and cursor positions; seq calls them through function values under the callback
+//@ # ---- contract below (cursor stays non-negative, length field stays the slice length).
+//@ define fpOK(fp) = fp.l == len(fp.fen) && 0 <= fp.ix
+//@
+//@ func (*fenParser).position
+//@   props C11
+//@   allow-extern fmt. errors.
+//@   requires fpOK(fp) && fp.ix <= fp.l
+//@   ensures [cursor] fpOK(fp) && fp.ix >= old(fp.ix)
+//@   modifies fp.ix, fp.b.*
+//@   nopanic
+//@   loop 1: invariant fpOK(fp) && fp.ix >= pre(fp.ix) && fp.ix <= fp.l && -1 <= rank && rank <= 7
+//@   loop 1: modifies fp.ix, fp.b.*
+//@
+//@ func (*fenParser).stm
+//@   props C11
+//@   requires fpOK(fp) && fp.ix < fp.l
+//@   ensures [cursor] fpOK(fp) && fp.ix >= old(fp.ix)
+//@   modifies fp.ix, fp.b.*
+//@   allow-extern fmt. errors.
+//@   nopanic
+//@
+//@ func (*fenParser).cRights
+//@   props C11
+//@   requires fpOK(fp) && fp.ix < fp.l
+//@   ensures [cursor] fpOK(fp) && fp.ix >= old(fp.ix)
+//@   modifies fp.ix, fp.b.*
+//@   allow-extern fmt. errors.
+//@   nopanic
+//@   loop 1: invariant fpOK(fp) && fp.ix >= pre(fp.ix)
+//@   loop 1: modifies fp.ix, fp.b.*
+//@
+//@ func (*fenParser).enPassant
+//@   props C11
+//@   requires fpOK(fp) && fp.ix < fp.l
+//@   ensures [cursor] fpOK(fp) && fp.ix >= old(fp.ix)
+//@   modifies fp.ix, fp.b.*
+//@   allow-extern fmt. errors.
+//@   nopanic
+//@
+//@ func (*fenParser).counter
+//@   props C11
+//@   requires fpOK(fp) && fp.ix < fp.l
+//@   ensures [cursor] fpOK(fp) && fp.ix >= old(fp.ix)
+//@   modifies fp.ix
+//@   allow-extern fmt. errors.
+//@   nopanic
+//@   loop 1: invariant fpOK(fp) && fp.ix >= pre(fp.ix)
+//@   loop 1: modifies fp.ix
+//@
+//@ func (*fenParser).fifty
+//@   props C11
+//@   requires fpOK(fp) && fp.ix < fp.l
+//@   ensures [cursor] fpOK(fp) && fp.ix >= old(fp.ix)
+//@   ensures [range]  0 <= fp.b.FiftyCnt && fp.b.FiftyCnt <= 100 || fp.b.FiftyCnt == old(fp.b.FiftyCnt)
+//@   modifies fp.ix, fp.b.*
+//@   allow-extern fmt. errors.
+//@   nopanic
+//@
+//@ func (*fenParser).fullMoves
+//@   props C11
+//@   requires fpOK(fp) && fp.ix < fp.l
+//@   ensures [cursor] fpOK(fp) && fp.ix >= old(fp.ix)
+//@   modifies fp.ix, fp.b.*
+//@   allow-extern fmt. errors.
+//@   nopanic
+//@
+//@ func (*fenParser).seq
+//@   props C11
+//@   requires fpOK(fp) && fp.ix <= fp.l
+//@   callback-requires fpOK(fp) && fp.ix <= fp.l && (iter(1) == -1 || fp.ix < fp.l)
+//@   callback-modifies fp.ix, fp.b.*
+//@   callback-ensures fpOK(fp)
+//@   allow-extern fmt. errors.
+//@   nopanic
+//@   loop 1: invariant fpOK(fp) && -1 <= iter(1) && iter(1) < len(parsers) && (iter(1) >= 0 || (first && fp.ix <= fp.l)) && (iter(1) < 0 || !first)
+//@   loop 1: modifies fp.ix, fp.b.*
+//@   loop 2: invariant fpOK(fp)
+//@   loop 2: modifies fp.ix
+//@
+//@ # ---- C11 (gate): the piece-count filter applied by `position fen` never rejects material that is
+//@ # ---- reachable by promotion (one king; promoted pieces are paid for by missing pawns)
+//@ define cntOf(b, c, p) = (b.Colors[c] & b.Pieces[p]).Count()
+//@ define extra(n, base) = max(n, base) - base
+//@ define reachableMaterial(b, c) = onehot(b.Colors[c] & b.Pieces[6]) && cntOf(b, c, 1) + extra(cntOf(b, c, 2), 2) + extra(cntOf(b, c, 3), 2) + extra(cntOf(b, c, 4), 2) + extra(cntOf(b, c, 5), 1) <= 8
+//@
+//@ func (Board).InvalidPieceCount
+//@   props C11
+//@   opaque popcnt64
+//@   ensures [accepts] implies(reachableMaterial(b, 0) && reachableMaterial(b, 1), !result)
+//@   modifies nothing
+//@   nopanic
+//@   loop 1: unroll 2
